@@ -67,6 +67,26 @@ func (s *Sim) scribbleWork(idx int, parkUs int64) func(m *mqtt.Message) {
 	}
 }
 
+// embMux / embAsync: application types that embed the library's multiplexer /
+// asynchronous wrapper (and so inherit their method sets) but serve the
+// message themselves, rewriting it, before delegating.
+type embMux struct {
+	*mqtt.ServeMux
+	work func(*mqtt.Message)
+}
+
+func (e *embMux) Serve(m *mqtt.Message) {
+	e.work(m)
+	e.ServeMux.Serve(m)
+}
+
+type embAsync struct {
+	mqtt.ServeAsync
+	work func(*mqtt.Message)
+}
+
+func (e *embAsync) Serve(m *mqtt.Message) { e.work(m) }
+
 func (s *Sim) muxHandler(h int) mqtt.Handler {
 	s.mu.Lock()
 	if s.mux != nil {
@@ -80,6 +100,12 @@ func (s *Sim) muxHandler(h int) mqtt.Handler {
 		var hd mqtt.Handler = s.scribbler(i, reg.ParkUs, reg.Retain)
 		if reg.Async {
 			hd = &mqtt.ServeAsync{Handler: hd}
+		}
+		switch reg.Embed {
+		case "mux":
+			hd = &embMux{ServeMux: &mqtt.ServeMux{}, work: s.scribbleWork(i, reg.ParkUs)}
+		case "async":
+			hd = &embAsync{ServeAsync: mqtt.ServeAsync{Handler: mqtt.HandlerFunc(func(*mqtt.Message) {})}, work: s.scribbleWork(i, reg.ParkUs)}
 		}
 		if err := mux.Handle(reg.Filter, hd); err != nil {
 			s.log(Rec{Kind: "muxerr", S: reg.Filter, Err: err.Error()})
@@ -134,7 +160,10 @@ func genC20(r *Rng) *Scenario {
 		if r.chance(0.7) {
 			reg.ParkUs = r.between(1, 400)
 		}
-		if !reg.Async && r.chance(0.3) {
+		if r.chance(0.12) {
+			reg.Embed, reg.Async = r.pick("mux", "async"), false
+		}
+		if !reg.Async && reg.Embed == "" && r.chance(0.3) {
 			reg.Retain = true
 			if reg.ParkUs == 0 {
 				reg.ParkUs = r.between(1, 400)
@@ -160,7 +189,9 @@ func genC20(r *Rng) *Scenario {
 			if r.chance(0.5) {
 				op.Repeat = int(r.between(2, 6)) // capacity factor of the caller's buffer
 			}
-			if op.QoS > 0 {
+			if op.QoS > 0 || r.chance(0.4) {
+				// (also for QoS 0: BaseClient.Publish fills the ID of every message, and
+				// the application dispatches that struct through its own mux)
 				op.PresetID = uint16(r.between(1, 500))
 			}
 			sc.Ops = append(sc.Ops, op)
